@@ -1,0 +1,109 @@
+//go:build verif
+
+// Contracts for the command-line runner (comment-only; read by /verif/plvc).
+
+package run
+
+//@ default nonnil *Options
+
+// ---- assumed contracts of dependencies -------------------------------------------------
+
+//@ extern fmt.Errorf
+//@ pure
+//@ ensures result != nil
+//@ extern errors.New
+//@ pure
+//@ ensures result != nil
+//@ extern os.ReadFile
+//@ modifies nothing
+//@ extern time.Now
+//@ pure
+//@ extern bytes.NewBuffer
+//@ modifies nothing
+//@ ensures result != nil
+//@ extern (*bytes.Buffer).String
+//@ pure
+//@ extern encoding/json.NewEncoder
+//@ modifies nothing
+//@ ensures result != nil
+//@ extern encoding/json.(*Encoder).SetEscapeHTML
+//@ modifies nothing
+//@ extern encoding/json.(*Encoder).SetIndent
+//@ modifies nothing
+//@ extern encoding/json.(*Encoder).Encode
+//@ modifies nothing
+//@ observe m any = v.(map[string]any)["measurement"]
+//@ observe tags any = v.(map[string]any)["tags"]
+//@ observe fields any = v.(map[string]any)["fields"]
+//@ observe time any = v.(map[string]any)["time"]
+//@ extern github.com/influxdata/influxdb1-client/models.ParsePointsWithPrecision
+//@ modifies nothing
+//@ extern github.com/influxdata/influxdb1-client/v2.NewPointFrom
+//@ modifies nothing
+//@ ensures result != nil
+// a parsed line-protocol point has float64/int64/uint64/string/bool fields; inputs that use
+// one key both as tag and as field are outside the property's inputs (assumed away here)
+//@ extern github.com/influxdata/influxdb1-client/v2.(*Point).Fields
+//@ modifies nothing
+//@ ensures result1 == nil && result0 != nil ==> (forall k string :: dom(result0, k) ==> input.supportedField(result0[k]))
+//@ extern github.com/influxdata/influxdb1-client/v2.(*Point).Tags
+//@ modifies nothing
+//@ extern github.com/influxdata/influxdb1-client/v2.(*Point).Name
+//@ pure
+//@ extern github.com/influxdata/influxdb1-client/v2.(*Point).Time
+//@ pure
+//@ extern github.com/influxdata/influxdb1-client/v2.(*Point).String
+//@ pure
+//@ extern github.com/influxdata/influxdb1-client/v2.NewPoint
+//@ modifies nothing
+//@ observe t0 time.Time = t[0]
+//@ global l nonnil
+
+// ---- C20 ----------------------------------------------------------------------------------
+
+// Run: a script name is required; with no input file the script is only loaded and checked
+// (nothing is run); otherwise it is run once, on the script that was loaded.
+//@ func Run
+//@ props C20
+//@ ensures old(options.Script) == "" ==> result != nil && ncalls(loadScript) == 0 && ncalls(runScript) == 0
+//@ ensures old(options.Script) != "" ==> ncalls(loadScript) == 1 && callarg(loadScript, 0, 1) == options
+//@ ensures ncalls(loadScript) == 1 && callres(loadScript, 0, 1) != nil ==> ncalls(runScript) == 0
+//@ ensures ncalls(loadScript) == 1 && callres(loadScript, 0, 1) == nil && callobs(loadScript, 0, input) == "" ==> ncalls(runScript) == 0
+//@ ensures ncalls(loadScript) == 1 && callres(loadScript, 0, 1) == nil && ncalls(runScript) == 0 ==> options.Input == ""
+//@ ensures ncalls(runScript) == 1 ==> callarg(runScript, 0, 1) == options && callarg(runScript, 0, 2) == callres(loadScript, 0, 0)
+
+// the name a script is selected by: the name given, or - for a single file - the name the
+// file was loaded under
+//@ spec selName(o *Options) string = old(o.Workspace) != "" ? old(o.Script) : callres(ReadPlScriptFromFile, 0, 0)
+
+// loadScript: the whole workspace (or the single file) is handed to ParseScript with the
+// builtin tables; the result is the script ParseScript returned under the selected name, or
+// the error recorded for exactly that name, or `not found`.
+//@ func loadScript
+//@ props C20
+//@ observe input string = options.Input
+//@ ensures result1 == nil ==> result0 != nil
+//@ ensures result1 == nil ==> ncalls(ParseScript) == 1 && dom(callres(ParseScript, 0, 0), selName(options)) && result0 == callres(ParseScript, 0, 0)[selName(options)]
+//@ ensures ncalls(ParseScript) == 1 && dom(callres(ParseScript, 0, 1), selName(options)) ==> result1 == callres(ParseScript, 0, 1)[selName(options)]
+//@ ensures ncalls(ParseScript) == 1 && !dom(callres(ParseScript, 0, 0), selName(options)) ==> result1 != nil
+//@ ensures ncalls(ParseScript) == 1 ==> callobs(ParseScript, 0, fns) == old(funcs.FuncsMap) && callobs(ParseScript, 0, chks) == old(funcs.FuncsCheckMap)
+//@ ensures old(options.Workspace) != "" && ncalls(ParseScript) == 1 ==> ncalls(ReadPlScriptFromDir) == 1 && callarg(ReadPlScriptFromDir, 0, 0) == old(options.Workspace) && callarg(ParseScript, 0, 0) == callres(ReadPlScriptFromDir, 0, 0)
+//@ ensures old(options.Workspace) == "" && ncalls(ParseScript) == 1 ==> ncalls(ReadPlScriptFromFile) == 1 && callarg(ReadPlScriptFromFile, 0, 0) == old(options.Script)
+
+// runScript: the point is built from the input (text: one field `message`, measurement
+// `default_name`; line protocol: name, tags, fields and time of the first point), the script is
+// run once on it, and what is handed to the encoder is the point as it is AFTER the run; a
+// dropped point and a failed run print nothing.
+//@ func runScript
+//@ props C20
+//@ requires script != nil
+//@ ensures result == nil ==> ncalls(InitPt) == 1 && ncalls((*Script).Run) == 1 && callarg((*Script).Run, 0, 0) == script && callres((*Script).Run, 0, 0) == nil
+//@ ensures result == nil ==> typeis(callarg((*Script).Run, 0, 1), *input.Point) && callarg((*Script).Run, 0, 1).(*input.Point) == callarg(InitPt, 0, 0)
+//@ ensures result == nil ==> callseq(InitPt, 0) < callseq((*Script).Run, 0)
+//@ ensures result == nil ==> !callobs(PutPoint, 0, drop)
+//@ ensures ncalls(InitPt) == 1 && old(options.Type) == TypeText ==> callarg(InitPt, 0, 1) == "default_name" && callarg(InitPt, 0, 2) == nil && callobs(InitPt, 0, onlyMessage)
+//@ ensures ncalls(InitPt) == 1 && old(options.Type) == TypeLineProtocol ==> callarg(InitPt, 0, 1) == callres((*client.Point).Name, 0, 0) && callarg(InitPt, 0, 2) == callres((*client.Point).Tags, 0, 0) && callarg(InitPt, 0, 3) == callres((*client.Point).Fields, 0, 0) && callarg(InitPt, 0, 4) == callres((*client.Point).Time, 0, 0)
+//@ ensures result == nil && old(options.OutputType) == OutTypeLineProtocol ==> ncalls(client.NewPoint) == 1 && callseq((*Script).Run, 0) < callseq(client.NewPoint, 0)
+//@ ensures result == nil && old(options.OutputType) == OutTypeLineProtocol ==> callarg(client.NewPoint, 0, 0) == callobs(PutPoint, 0, m) && callarg(client.NewPoint, 0, 1) == callobs(PutPoint, 0, tags) && callarg(client.NewPoint, 0, 2) == callobs(PutPoint, 0, fields) && len(callarg(client.NewPoint, 0, 3)) == 1 && callobs(client.NewPoint, 0, t0) == callobs(PutPoint, 0, time)
+//@ ensures result == nil && old(options.OutputType) == OutTypeJSON ==> ncalls((*json.Encoder).Encode) == 1 && callseq((*Script).Run, 0) < callseq((*json.Encoder).Encode, 0)
+//@ ensures result == nil && old(options.OutputType) == OutTypeJSON ==> callobs((*json.Encoder).Encode, 0, m) == any(callobs(PutPoint, 0, m)) && callobs((*json.Encoder).Encode, 0, tags) == any(callobs(PutPoint, 0, tags)) && callobs((*json.Encoder).Encode, 0, fields) == any(callobs(PutPoint, 0, fields)) && callobs((*json.Encoder).Encode, 0, time) == any(callobs(PutPoint, 0, time))
